@@ -4,12 +4,13 @@ func init() {
 	checks["C26"] = &checkDef{
 		Level:       levelMC,
 		Explanation: "Schedule-symbolic execution of the real pipe.Receive, Do, _backgroundRead, handlePush and subs (pubsub.go) over an in-memory connection with a scripted Pub/Sub server. Two Receive calls subscribe to channels a and b; while answering a regular command the server publishes a symbolic interleaving of messages over the two channels (every assignment of M messages to a/b); then subscription a ends by UNSUBSCRIBE (issued through Do on the same connection, with the PING trick), by cancelling its context, by Close, or by the connection dying right after the unsubscribe confirmation and before the PONG. Oracle: each callback sees only its own channel's messages, in server order, never twice; after an unsubscribe every message published before it has been delivered and Receive returns nil; cancellation returns the context error, Close returns ErrClosing; the regular command gets its own reply although pushes are interleaved; a command whose reply is cut off by the connection loss returns an error; no caller is left parked (HANG).",
-		Assumptions: []string{"at most 14 messages per subscription (the 16-slot subscription buffer never fills; a full buffer back-pressures the reader by design)", "sequentially consistent memory; context switches at visible operations"},
+		Assumptions: []string{"in VerifC26_receive at most 14 messages per subscription (the 16-slot buffer never fills); VerifC26_backpressure covers a lagging consumer whose buffer is full (burst of 18) and whose context then ends", "sequentially consistent memory; context switches at visible operations"},
 		Trusted:     []string{"scripted server, verifConn; engine scheduler and intrinsics"},
 		Outside:     []string{"PSUBSCRIBE/SSUBSCRIBE (same code path with another subs instance), RESP2 Pub/Sub pipes", "SetPubSubHooks channels (closed exactly once with at most one error)", "schedules needing more than D delays"},
 		Bounds:      map[string]any{"quick": "M = 3 messages, ring, D = 1", "thorough": "M = 4 messages, ring and flow buffer, D = 1"},
 		specs: func(tier string) []specRef {
 			s := []specRef{hsd(rootPkg, "VerifC26_receive", P{"messages": q(tier, int64(3), 4), "flow": 0}, 1, 5000000, 3400, "unsubscribed", "cancelled", "closed", "cutoff")}
+			s = append(s, hsd(rootPkg, "VerifC26_backpressure", P{"burst": 18}, 1, 5000000, 3400, "backpressure"))
 			if tier == "thorough" {
 				s = append(s, hsd(rootPkg, "VerifC26_receive", P{"messages": 3, "flow": 1}, 1, 5000000, 3400, "unsubscribed", "cancelled", "closed", "cutoff"))
 			}
